@@ -545,6 +545,15 @@ def full_memory_case(short, variant):
     n = cap - short
     nop = ("nop", "NOP", "addi x0, x0, 0")[variant]
     lines = ["first: li x5, 0x12345"] + [nop] * (n - 6) + ["mid: addi x1, x1, 1", "bne x1, x0, mid", "jal x0, mid", "last: beq x0, x0, last"] + (["end:"] if variant else [])
+    # conditional branches to labels at both ends of their reach: -4096 (1024 instructions back) and +4092 (1023 forward)
+    # (line index = instruction index - 1 behind the two-instruction li group)
+    extremes = {}
+    if n > 2400:
+        lines[10 - 1] = "far: addi x2, x2, 1"
+        lines[10 + 1024 - 1] = "beq x0, x0, far"
+        lines[1100 - 1] = "bne x0, x0, fwd"
+        lines[1100 + 1023 - 1] = "fwd: addi x3, x3, 1"
+        extremes = {4 * 10: ("addi", 2, 2, None, 1), 4 * 1034: ("beq", None, 0, 0, -4096), 4 * 1100: ("bne", None, 0, 0, 4092), 4 * 2123: ("addi", 3, 3, None, 1)}
     text = "\n".join(lines) + "\n"
     try:
         a = asm.assemble(text, timeout=120)
@@ -557,11 +566,69 @@ def full_memory_case(short, variant):
         return n, f"the li group at the start is {a.fields[:2]}, on its own it assembles to {li}"
     want = {8: ("addi", 0, 0, None, 0), 4 * (n - 5): ("addi", 0, 0, None, 0),
             4 * (n - 4): ("addi", 1, 1, None, 1), 4 * (n - 3): ("bne", None, 1, 0, -4), 4 * (n - 2): ("jal", 0, None, None, -8), 4 * (n - 1): ("beq", None, 0, 0, 0)}
+    want.update(extremes)
     for addr, w in want.items():
         got = a.fields[addr // 4]
         if tuple(got) != w:
             return n, f"instruction at {addr} is {tuple(got)}, the text denotes {w}"
     return n, None
+
+
+PAGE_DATA = ".data\npad: .zero 1020\narr: .word 11, 12, 13, 14, 15, 16\nbig: .zero 2048\ntail: .half 21, 22, 23\n"
+PAGE_BASE = DATA + 4 * 1020          # arr = 0x4FF0: arr[4] is the first word of the next 4 KiB page
+PAGE_BIG = PAGE_BASE + 24
+PAGE_TAIL = PAGE_BIG + 4 * 2048
+
+
+def page_cases():
+    """By-name pseudo-instructions whose element lies on another 4 KiB page than the start of its array (the upper part of
+    the address must come from the element, not from the array): (line, register, expected value after running)."""
+    out = []
+    for i in range(6):
+        out.append((f"la x6, arr[{i}]", 6, PAGE_BASE + 4 * i))
+        out.append((f"lw x7, arr[{i}]", 7, 11 + i))
+    for i in (0, 1, 510, 511, 512, 1023, 1024, 1500, 2047):
+        out.append((f"la x8, big[{i}]", 8, PAGE_BIG + 4 * i))
+    for i in range(3):
+        out.append((f"la x9, tail[{i}]", 9, PAGE_TAIL + 2 * i))
+        out.append((f"lhu x10, tail[{i}]", 10, 21 + i))
+    for i in (3, 4, 5):
+        out.append((f"sw x11, arr[{i}], x12", 12, PAGE_BASE + 4 * i))
+    return out
+
+
+def page_case(k):
+    line, reg, want = page_cases()[k]
+    text = PAGE_DATA + ".text\naddi x11, x0, 77\n" + line + "\n"
+    try:
+        a = asm.assemble(text)
+        n = 0
+        while not a.sim.is_done() and n < 20:
+            a.sim.step()
+            n += 1
+    except Exception as e:  # noqa
+        return f"{line!r} behind a 4 KiB data segment: {type(e).__name__}: {getattr(e, 'instruction_repr', e)!r}"
+    got = int(a.sim.state.register_file.registers[reg])
+    if got != want:
+        return f"{line!r}: x{reg} = {got:#x} after running, the documented effect gives {want:#x} (group {a.fields[1:]})"
+    if line.startswith("sw") and int(a.sim.state.memory.read_word(want)) != 77:
+        return f"{line!r}: the word at {want:#x} is {int(a.sim.state.memory.read_word(want))}, expected 77"
+    return None
+
+
+def page_shard(shard):
+    part, parts = shard
+    p = Partial()
+    for k in range(len(page_cases())):
+        if k % parts != part:
+            continue
+        p.evaluations += 1
+        p.nontrivial += 1
+        p.counters["by-name-element-on-another-page"] += 1
+        d = page_case(k)
+        if d:
+            p.violation(dict(oracle="pseudo-effect-far-element", field="effect"), dict(kind="page", k=k), d, size=(k,))
+    return p
 
 
 def full_memory_shard(shard):
@@ -601,6 +668,9 @@ def fresh_items():
 def replay(case):
     if case["kind"] == "fresh":
         return freshcmp.replay(case)
+    if case["kind"] == "page":
+        d = page_case(case["k"])
+        return [(dict(oracle="pseudo-effect-far-element", field="effect"), d)] if d else []
     if case["kind"] == "full-memory":
         _n, d = full_memory_case(case["short"], case["variant"])
         return [(dict(oracle="full-instruction-memory", field="layout"), d)] if d else []
@@ -680,6 +750,10 @@ def run(ctx):
     t0 = time.time()
     part = pmap(spelling_shard, [(i, 32) for i in range(32)])
     ctx.space("spelling-deviations", part, t0)
+    t0 = time.time()
+    part = pmap(page_shard, [(i, 16) for i in range(16)])
+    ctx.space("by-name-elements-on-another-page", part, t0, cases=len(page_cases()))
+    ctx.require("by-name-element-on-another-page")
     t0 = time.time()
     part = pmap(full_memory_shard, [(0, 0), (1, 1)] if ctx.quick else [(0, 0), (0, 1), (0, 2), (1, 1), (2, 2)])
     ctx.space("programs-filling-the-instruction-memory", part, t0, note="li + nops + labelled tail; capacity, capacity-1 (and -2) instructions after expansion")
